@@ -1,0 +1,24 @@
+//go:build verif
+
+// Contracts checked by /verif (gocv). Comment-only; compiled only with -tags verif.
+
+package function
+
+// NewFunctionCall: a function name missing from the table is reported as not implemented when the
+// parser knows it and as unsupported otherwise; never as anything else (C08).
+//@ func NewFunctionCall
+//@   requires f != nil
+//@   assigns nothing
+//@   ensures[C08] err-is-unsupported: result1 != nil ==> (result1.isNS || result1.isNI) && isnil(result0)
+//@   ensures[C08] known-iff-in-table: (result1 == nil) == has(function.Funcs, f.Name)
+//@   ensures[C03,C06] call-is-table-entry: result1 == nil ==> ref(result0) == ref(function.Funcs[f.Name]) && !isnil(result0)
+
+//@ func NewHistogramOperator
+//@   requires len(nextOps) >= 2 && stepsBatch >= 0
+//@   ensures[C08] never-fails: result1 == nil && result0 != nil
+
+//@ func NewFunctionOperator
+//@   requires funcExpr != nil && opts != nil && stepsBatch >= 0
+//@   requires len(nextOps) >= 1 ==> len(funcExpr.Args) == len(nextOps)
+//@   ensures[C08] err-is-unsupported: result1 != nil ==> (result1.isNS || result1.isNI) && result0 == nil
+//@   ensures ok-nonnil: result1 == nil ==> result0 != nil
